@@ -79,6 +79,11 @@ TEXT = {
   technique='differential property-based testing against the reference implementation: generated host trees (sparse files, many entries, symlinks, owners, xattrs) populated by mke2fs -d / debugfs under generated feature sets, re-hashed with e2fsck -fyD and fragmented with debugfs, then read through ext4.Read and compared with what was put in (debugfs as arbiter); a hang or wrong data is a violation, refusal or a per-node error is not',
   level_text='Generated images from an independent implementation; oracle = source tree / debugfs view, watchdog for termination. Exploration.',
   level_note='Trusts e2fsprogs 1.47.0 as installed in the sandbox.'),
+ 'C16': dict(
+  design_ref='DESIGN.md §4 C16',
+  technique='property-based testing: generated trees copied between generated source/destination filesystem pairings and read back through the destination reader; CompareFS run on pairs of materialisations that are equal or differ by one generated mutation, in both argument orders; the reference diff is computed by the harness on the models',
+  level_text='Generated search with a model oracle for copy and a single-mutation metamorphic oracle for compare. Exploration.',
+  level_note='Trusts the harness tree diff and the separately checked readers of each filesystem type.'),
  'C15': dict(
   design_ref='DESIGN.md §4 C15',
   technique='fault enumeration: every GPT header field x boundary values x CRC recomputed/stale x primary/backup/both, 2-field size combinations, entry and MBR-slot corruptions, truncations, plus random images; oracle = no panic, watchdog, heap-allocation bound, returned tables only from CRC-valid data (independent parser); thorough adds a native go fuzz campaign',
